@@ -342,6 +342,9 @@ pub fn run(tier: &str) -> i32 {
     docs.push(m(vec![("a", m(vec![("", m(vec![("a", i(2)), ("b", s("x"))])), ("a", m(vec![("a", i(1)), ("b", s("y"))]))])), ("b", i(1))]));
     docs.push(m(vec![("a", m(vec![("a/b", l(vec![i(3), i(1)])), ("0", l(vec![i(2)])), ("a b", l(vec![])), ("a.b", i(1))])), ("b", i(3))]));
     docs.push(m(vec![("a", l(vec![m(vec![("", i(2)), ("a", i(1))]), m(vec![("", l(vec![i(1), i(2)]))])])), ("", i(1)), ("b", i(2))]));
+    // floats without a fraction, small and beyond the 64-bit integers
+    docs.push(m(vec![("a", l(vec![f(2.0), f(1e20), f(-1e19)])), ("b", f(3.0))]));
+    docs.push(m(vec![("a", m(vec![("a", f(1e20)), ("b", f(-2.0))])), ("b", f(1e19))]));
     // strings whose text reads as a number, a boolean or null
     docs.push(m(vec![("a", l(vec![s("12"), s("true"), s("3.5"), s("null"), s("1e3")])), ("b", s("12"))]));
     docs.push(m(vec![("a", m(vec![("a", s("7")), ("b", s("false"))])), ("b", s("~"))]));
